@@ -355,7 +355,7 @@ fn printed_unit_ok(text: &str, info: &LineInfo) -> Result<bool, String> {
     Ok(true)
 }
 
-fn strip_ansi(s: &str) -> String {
+pub fn strip_ansi(s: &str) -> String {
     let mut out = String::new();
     let mut it = s.chars().peekable();
     while let Some(c) = it.next() {
